@@ -43,6 +43,7 @@ func main() {
 	list := flag.Bool("list", false, "list registered properties")
 	describe := flag.Bool("describe", false, "print the registered properties (decided clauses, assumptions, witness mutants) as JSON")
 	flag.Parse()
+	loadSeedMutants(*verif)
 
 	if *describe {
 		type mut struct {
@@ -228,6 +229,9 @@ func analyse(meta *propMeta, cfg LoadConfig) (rep *Report, p *Prog, err error) {
 	}
 	rep = NewReport(meta.ID)
 	meta.Run(p, rep)
+	for _, extra := range round2Rules[meta.ID] {
+		extra(p, rep)
+	}
 	return rep, p, nil
 }
 
